@@ -68,7 +68,7 @@ func symbolsOf(t string) []string {
 }
 
 func isHubSymbol(s string) bool {
-	return strings.HasPrefix(s, "alloc!") || s == "null" || s == "inil" || s == "at" || s == "itag" || s == "strlen" || s == "strbyte"
+	return strings.HasPrefix(s, "alloc!") || s == "null" || s == "inil" || s == "at" || s == "itag" || s == "strlen" || s == "strbyte" || s == "subtag"
 }
 
 // relevantItems: cone of influence of the goal.  An assertion is kept when it shares a declared, non-hub symbol
@@ -106,9 +106,30 @@ func relevantItems(r *FuncResult, o *Obl) []bool {
 	keep := make([]bool, n)
 	for i := 0; i < n; i++ {
 		// assertions over hub symbols only (allocation monotonicity, constants) are always kept
-		if (r.Items[i].Kind == "assert" || r.Items[i].Kind == "raw") && len(r.itemSyms[i]) == 0 {
+		if (r.Items[i].Kind == "assert" || r.Items[i].Kind == "raw") &&
+			(len(r.itemSyms[i]) == 0 || strings.Contains(r.Items[i].Body, ":pattern ((select alloc!")) {
 			keep[i] = true
 		}
+	}
+	// frame obligations are about one component: quantified facts that do not mention a version of that
+	// component cannot contribute (its versions are store chains / frame-constrained symbols of that component)
+	framePrefix := ""
+	if o.Kind == "frame" {
+		if a := strings.Index(o.Name, "frame{"); a >= 0 {
+			if b := strings.LastIndex(o.Name, "}"); b > a {
+				framePrefix = sanitize(o.Name[a+6:b]) + "!"
+			}
+		}
+	}
+	skip := func(i int) bool {
+		if framePrefix == "" || r.Items[i].Kind != "assert" || len(r.itemSyms[i]) <= 1 {
+			return false // (single-symbol facts such as length bounds are cheap and needed for index arithmetic)
+		}
+		body := r.Items[i].Body
+		if !strings.Contains(body, "(forall ") && !strings.Contains(body, "(exists ") {
+			return false
+		}
+		return !strings.Contains(body, framePrefix) && !strings.Contains(body, "alloc!")
 	}
 	rel := map[string]bool{}
 	var work []string
@@ -146,7 +167,7 @@ func relevantItems(r *FuncResult, o *Obl) []bool {
 			}
 		}
 		for _, ai := range r.symUsers[sym] {
-			if ai < n && !keep[ai] {
+			if ai < n && !keep[ai] && !skip(ai) {
 				keep[ai] = true
 				for _, s2 := range r.itemSyms[ai] {
 					add(s2)
